@@ -19,6 +19,7 @@
 #define MAXCALLS 64
 
 static MPT_STRUCT(dispatch) disp;
+static MPT_STRUCT(array) snapshot;      /* second handle on the command table (array copy of disp._d) */
 static int have;
 
 static struct call {
@@ -62,6 +63,7 @@ static void drv_reset(void)
 {
 	/* the previous behaviour's dispatcher is abandoned (leak checking is off) */
 	memset(&disp, 0, sizeof(disp));
+	memset(&snapshot, 0, sizeof(snapshot));
 	have = 0;
 	ncalls = 0;
 }
@@ -138,6 +140,8 @@ static void emit_rest(void)
 	j_arr_open("slotids");
 	for (i = 0; i < n; i++) limbs_item(cmd[i].id);
 	j_arr_close();
+	j_str("snap", !snapshot._buf ? "none" : snapshot._buf == buf ? "same" : "own");
+	j_int("snapslots", snapshot._buf ? (long long) (snapshot._buf->_used / sizeof(*cmd)) : 0);
 }
 static void answer_str(struct cmd *c, const char *ret)
 {
@@ -240,6 +244,21 @@ static void drv_step(struct cmd *c)
 		}
 		mpt_array_clone(&disp._d, 0);
 		answer_str(c, "ok");
+	}
+	else if (!strcmp(a, "snapshot")) {
+		/* a snapshot handle on the table: array copy of the public _d member.  One at a time
+		 * (seeded histories cannot know whether one is held: not called then) */
+		int r;
+		if (snapshot._buf) {
+			drv_begin(c); j_str("ret", "skipped"); drv_dbg(); drv_end();
+			return;
+		}
+		r = mpt_array_clone(&snapshot, &disp._d);
+		answer_str(c, r < 0 ? "refused" : r ? "ok" : "none");
+	}
+	else if (!strcmp(a, "dropsnapshot")) {
+		int r = mpt_array_clone(&snapshot, 0);
+		answer_str(c, r < 0 ? "refused" : r ? "ok" : "none");
 	}
 	else if (!strcmp(a, "emit")) {
 		MPT_STRUCT(event) ev = MPT_EVENT_INIT;
